@@ -15,11 +15,13 @@ pub mod c11;
 pub mod c14;
 pub mod c15;
 pub mod c16;
+pub mod c21;
 pub mod c23;
 pub mod c24;
 pub mod c25;
 pub mod c28;
 pub mod c29;
+pub mod c32;
 pub mod exh;
 
 pub fn all() -> Vec<Prop> {
@@ -38,11 +40,13 @@ pub fn all() -> Vec<Prop> {
         c14::prop(),
         c15::prop(),
         c16::prop(),
+        c21::prop(),
         c23::prop(),
         c24::prop(),
         c25::prop(),
         c28::prop(),
         c29::prop(),
+        c32::prop(),
     ]
 }
 
@@ -50,6 +54,7 @@ pub fn all() -> Vec<Prop> {
 pub fn aux(id: &str, args: &[String]) -> i32 {
     match id {
         "C14" => c14::aux(args),
+        "C21" => c21::aux(args),
         _ => {
             eprintln!("no aux entry for {}", id);
             4
